@@ -94,6 +94,8 @@ pub struct Cfg {
     /// pass the source date as a chrono DateTime at this UTC offset (seconds east) instead of as an integer:
     /// another spelling of the same instant
     pub source_date_offset: Option<i32>,
+    /// per changelog entry: hand the time over as a chrono DateTime at this UTC offset (same instant)
+    pub changelog_offsets: Vec<Option<i32>>,
 }
 
 fn with_source_date(b: PackageBuilder, sd: u32, off: Option<i32>) -> PackageBuilder {
@@ -246,8 +248,15 @@ pub fn builder(cfg: &Cfg, wd: &Workdir) -> Result<PackageBuilder, rpm::Error> {
             _ => b.supplements(dep),
         };
     }
-    for (n, t, ts) in &cfg.changelog {
-        b = b.add_changelog_entry(n, t, *ts);
+    for (i, (n, t, ts)) in cfg.changelog.iter().enumerate() {
+        b = match cfg.changelog_offsets.get(i).copied().flatten() {
+            None => b.add_changelog_entry(n, t, *ts),
+            Some(o) => {
+                let dt = chrono::DateTime::from_timestamp(*ts as i64, 0).expect("in range")
+                    .with_timezone(&chrono::FixedOffset::east_opt(o).expect("offset"));
+                b.add_changelog_entry(n, t, dt)
+            }
+        };
     }
     for (i, f) in cfg.files.iter().enumerate() {
         let src = wd.source(i, f);
@@ -311,6 +320,9 @@ pub fn rand_file(rng: &mut Rng, used: &mut Vec<String>, max_len: usize) -> FileC
     };
     let kind = rng.below(10);
     let (mode, link) = match kind {
+        // a link target next to a mode that is not a link mode (inherited, or explicitly regular) is metadata like any other
+        5 if rng.chance(1, 3) => (None, Some(rng.pick(&["target", "../x", "/abs/t"]).to_string())),
+        6 if rng.chance(1, 3) => (Some(0o100644), Some("elsewhere".to_string())),
         0 => (Some(0o120777), Some(rng.pick(&["target", "../x", "/abs/t"]).to_string())),
         1 => (Some(0o040000 | *rng.pick(&[0o755u16, 0o700, 0o1777, 0o2755])), None),
         2 | 3 | 4 => (Some(0o100000 | *rng.pick(&[0o644u16, 0o600, 0o755, 0o4755, 0o7777, 0o000, 0o444, 0o664, 0o666, 0o775, 0o777])), None),
@@ -324,7 +336,9 @@ pub fn rand_file(rng: &mut Rng, used: &mut Vec<String>, max_len: usize) -> FileC
     }
     FileCfg {
         dest: rand_dest(rng, used),
-        len: if kind <= 1 { 0 } else { len },
+        // (symlink and directory entries usually come from empty placeholders, but the builder archives whatever the
+        // source holds)
+        len: if kind <= 1 && !rng.chance(1, 4) { 0 } else { len },
         compressible: rng.chance(1, 2),
         seed: rng.next(),
         mode,
@@ -391,6 +405,7 @@ pub fn rand_cfg(rng: &mut Rng, max_files: u64, max_len: usize) -> Cfg {
     let ncl = rng.below(4);
     for i in 0..ncl {
         cfg.changelog.push((format!("Dev {} <d@e.f> - 0.{}", rand_str(rng), i), rand_str(rng), *rng.pick(&[0u32, 840_000_000, 1_681_411_811, u32::MAX])));
+        cfg.changelog_offsets.push(*rng.pick(&[None, None, Some(0), Some(7200), Some(-28800), Some(19800)]));
     }
     let nfiles = rng.below(max_files + 1);
     let mut used = vec![];
@@ -443,6 +458,7 @@ pub fn rand_cfg(rng: &mut Rng, max_files: u64, max_len: usize) -> Cfg {
     };
     cfg.source_date = if rng.chance(2, 3) { Some(1_600_000_000) } else { None };
     cfg.late_source_date = rng.chance(1, 2);
+    cfg.source_date_offset = *rng.pick(&[None, None, None, Some(0), Some(3600), Some(-18000), Some(34200)]);
     cfg
 }
 
